@@ -246,7 +246,7 @@ def r4_repr(rep, ctx):
         same = len(units) == 2 and units[0][1] == units[1][1] and units[0][1][0] == "param"
         rep.check(same, "C20.R4", "%s.GetFormatted:same-unit" % cname, "value and suffix are formatted for the same requested unit",
                   "%s.GetFormatted formats the value and the suffix for different units: %s" % (cname, [(a, show(b)) for a, b in units]), fn=fn)
-    rep.floor("C20.R4", "display sites", n, 5)
+    rep.floor("C20.R4", "display sites", n, 3)
 
 
 MAPF = ("field", "_category_to_unit_and_exps")
